@@ -212,8 +212,17 @@ class Exec:
                 # sidecar cut point: intermediate facts are proved here (small context) and carried forward as hypotheses
                 for o in outs:
                     if o.kind == "normal":
-                        for nm, f in cut(self, o.st):
+                        res_ = cut(self, o.st)
+                        forget = ()
+                        if isinstance(res_, dict):
+                            forget, res_ = tuple(res_.get("forget", ())), res_["facts"]
+                        for nm, f in res_:
                             self.oblige(o.st, nm, f, "assert", s.lineno)
+                        if forget:
+                            # abstraction: hypotheses about intermediate objects are dropped once the lemma facts
+                            # characterise the current state (dropping hypotheses is always sound)
+                            o.st.pc = [h for h in o.st.pc if not any(str(c).startswith(forget) for c in _consts_of(h))]
+                        for nm, f in res_:
                             o.st.pc.append(f)
         return outs
 
@@ -360,6 +369,20 @@ class Exec:
                 rec = st.heap[base.oid]
                 k = self.name_term(self.ev(tgt.slice, st))
                 st.heap[base.oid] = BBDict(z3.Store(rec.dom, k, True), z3.Store(rec.val, k, val.term if hasattr(val, "term") else val))
+                return
+            if isinstance(base, DictV) and isinstance(tgt.value, ast.Name):
+                k = self.name_term(self.ev(tgt.slice, st))
+                if not isinstance(val, (NameV, StrLit)):
+                    raise Unsupported("dict store of a non-name value")
+                v = self.name_term(val)
+                old = base
+                dom0 = old.dom if old.items is None else (lambda y, ks=[kk for kk, _ in old.items]: z3.Or([y == kk for kk in ks]) if ks else z3.BoolVal(False))
+                val0 = old.val
+                if old.items:
+                    raise Unsupported("store into a non-empty explicit dict")
+                new = DictV(lambda y, d=dom0, k=k: z3.Or(d(y), y == k),
+                            (lambda y, f=val0, k=k, v=v: NameV(z3.If(y == k, v, f(y).term))) if val0 is not None else (lambda y, v=v: NameV(v)))
+                st.env[tgt.value.id] = new
                 return
             if isinstance(base, DictV):
                 raise Unsupported("dict store")
@@ -553,9 +576,10 @@ class Exec:
         for ref in objs:
             rec = st2.heap[ref.oid]
             if isinstance(rec, CircuitRec):
-                g = Graph.fresh(ctx, "hv")
-                st2.heap[rec.graph] = g
-                st2.pc.append(g.wf(ctx))
+                if not getattr(ref, "registry_only", False):
+                    g = Graph.fresh(ctx, "hv")
+                    st2.heap[rec.graph] = g
+                    st2.pc.append(g.wf(ctx))
                 if getattr(ref, "havoc_registry", False):
                     st2.heap[rec.bbs] = BBDict.fresh(ctx, "hv")
             elif isinstance(rec, Graph):
@@ -577,6 +601,10 @@ class Exec:
             return Coll.from_array(ctx.arr_nb(nm))
         if isinstance(v, ErrList):
             return ErrList(ctx.fresh(nm + "_nonempty", B))
+        if isinstance(v, DictV):
+            dom = ctx.arr_nb(nm + "_dom")
+            fn = z3.Function(f"{nm}_val!{next(ctx._n)}", ctx.Name, ctx.Name)
+            return DictV(lambda y, d=dom: z3.Select(d, y), lambda y, f=fn: NameV(f(y)))
         if isinstance(v, NameV):
             return NameV(ctx.fresh_name(nm))
         if isinstance(v, bool) or (z3.is_expr(v) and v.sort() == B):
@@ -851,7 +879,8 @@ class Exec:
             return self.dictcomp(e, st)
         if isinstance(e, ast.Dict):
             if not e.keys:
-                return DictV(lambda x: z3.BoolVal(False), lambda x: None, items=[])
+                junk = z3.Function(f"empty_dict_val!{next(self.ctx._n)}", self.ctx.Name, self.ctx.Name)
+                return DictV(lambda x: z3.BoolVal(False), lambda x, f=junk: NameV(f(x)), items=[])
             ks = [self.name_term(self.ev(k, st)) for k in e.keys]
             vs = [self.ev(v, st) for v in e.values]
             return DictV(lambda x, ks=ks: z3.Or([x == k for k in ks]), None, items=list(zip(ks, vs)))
